@@ -1054,3 +1054,63 @@ def sp_batch_j(I, st, args, kwargs):
     rows, B, j = args
     d = _stream_syms(I)
     return from_term(d['BJ'](rows.arr, to_term(B, 'int'), to_term(j, 'int')), ('list', ('tuple', 'pstr', 'pstr', 'real')))
+
+
+# ----------------------------------------------------------------------------- interaction features (C10)
+def _c10_syms():
+    """lpcat(D, N, k, i, s): concatenation of the length-prefixed cells of row i in the columns N[s], ..., N[k-1] of frame D."""
+    from . import sym as _sym
+    from .sym import sort_of
+    from . import stubs as _stubs
+    if hasattr(_c10_syms, 'd'):
+        return _c10_syms.d
+    d = _stubs._slaw()
+    P = _sym.PSTR
+    FD = sort_of(('opaque', 'FrameData'))
+    AP = z3.ArraySort(z3.IntSort(), P)
+    COL = z3.Function('frame_col_str', FD, P, AP)
+    LPCAT = z3.Function('lpcat', FD, AP, I_, I_, I_, P)
+    LP, C = d['LP'], _sym.PCONCAT
+    D, N = z3.Const('c10_D', FD), z3.Const('c10_N', AP)
+    k, i, j, s, c, dd = (z3.Int('c10_' + n) for n in ('k', 'i', 'j', 's', 'c', 'd'))
+    axiom('lpcat.end', z3.ForAll([D, N, k, i, s], z3.Implies(s >= k, LPCAT(D, N, k, i, s) == _sym.pstr_lit('')),
+                                 patterns=[LPCAT(D, N, k, i, s)]), 'lpcat', opaque=True)
+    axiom('lpcat.step', z3.ForAll([D, N, k, i, s], z3.Implies(
+        z3.And(s >= 0, s < k), LPCAT(D, N, k, i, s) == C(LP(COL(D, N[s])[i]), LPCAT(D, N, k, i, s + 1))),
+        patterns=[LPCAT(D, N, k, i, s)]), 'lpcat', opaque=True)
+
+    def agree(lo):
+        return z3.ForAll([c], z3.Implies(z3.And(c >= lo, c < k), COL(D, N[c])[i] == COL(D, N[c])[j]))
+
+    def P_(dv):
+        return z3.ForAll([D, N, k, i, j, s], z3.Implies(z3.And(s >= 0, k - s == dv),
+                                                        (LPCAT(D, N, k, i, s) == LPCAT(D, N, k, j, s)) == agree(s)))
+    lemma('lpcat_faithful',
+          z3.ForAll([D, N, k, i, j], z3.Implies(k >= 0, (LPCAT(D, N, k, i, 0) == LPCAT(D, N, k, j, 0)) == agree(0)),
+                    patterns=[z3.MultiPattern(LPCAT(D, N, k, i, 0), LPCAT(D, N, k, j, 0))]),
+          _induction(P_, dd), uses=['lp_prefix_code'], unfold=['lpcat'])
+    _c10_syms.d = dict(d, COL=COL, LPCAT=LPCAT)
+    return _c10_syms.d
+
+
+@spec('lpcat')
+def sp_lpcat(I, st, args, kwargs):
+    df, comb, i, s = args
+    d = _c10_syms()
+    return VStr(d['LPCAT'](df.fields['data'].t, comb.arr, comb.length, i.t, s.t))
+
+
+@spec('lp')
+def sp_lp(I, st, args, kwargs):
+    return VStr(_c10_syms()['LP'](args[0].t))
+
+
+@spec('owned')
+def sp_owned(I, st, args, kwargs):
+    """owned(s): the Series object bound to s was created by this function and has no other holder (in-place updates are private)."""
+    return VBool(getattr(args[0], 'owned', z3.BoolVal(False)))
+
+
+@spec('xxh64hex')
+def sp_xxh64hex(I, st, args, kwargs):
+    return VStr(_c10_syms()['XXH'](args[0].t))
